@@ -200,7 +200,7 @@ def fix_mutate_A(src_lines):
 
 def module_source(p, execute=False, decorators=()):
     """the whole module: recording callees, helpers and the wrapper, placed according to the callee route"""
-    lines = ['import functools', 'REC = []', '']
+    lines = ['import functools', 'from sigtools import modifiers', 'REC = []', '']
     for k, sig in enumerate(p['callees']):
         lines.append(core.def_source(sig, name='g%d' % k, body='REC.append(%d)' % k).rstrip('\n'))
     lines += ['def h0(d):', '    d.clear() if isinstance(d, dict) else None', 'def h1(*a):', '    pass', '']
